@@ -128,7 +128,7 @@ class Gen:
             return r.choice(['1 // 0', 'undefined_name', 's + 1', 'raise KeyError("k")', '[1][5]', 'n.nope', 'n += 1; 1 // 0; n += 100', 'print(n); undefined_name']), 'runtime-error'
         return r.choice(['n = n + 3', 'n -= 1', 's = "r"']), 'assign'
 
-    SYNTAX_ERRORS = ['n = = 1', '1 +* 2', ')', 'n s', 'def', 'if', 'print(n))', 'for', 'else:', 'n +* 1', 'a b c', '1 = n', 'n = 1 +', 'n +', 'x = )', 'class', 'import']
+    SYNTAX_ERRORS = ['print("unexpected EOF while parsing"))', 'x = "EOF while scanning triple-quoted string literal" +* 2', 'n = = 1', '1 +* 2', ')', 'n s', 'def', 'if', 'print(n))', 'for', 'else:', 'n +* 1', 'a b c', '1 = n', 'n = 1 +', 'n +', 'x = )', 'class', 'import']
 
     def stmt_simple(self):
         txt, kind = self.simple()
